@@ -2,6 +2,16 @@
 HARNESSES = [
     COMMON["aead"]("gcm12_seal", 2, [(17, "quick"), (40, "quick"), (16, "quick")]),
     COMMON["aead"]("gcm13_seal", 4, [(1, "quick"), (40, "quick")]),
+    # after a HelloRetryRequest the client leaves early-data mode (no second 0-RTT flight under the early traffic key)
+    dict(name="hrr_early_data", dir="C06", src="hs_msg13.c", checks=[],
+         renames={"matrixssl/tls13Decode.c": ["tls13ParseClientHello", "tls13ParseServerHello", "tls13ClientActivateHsReadKeys", "tls13ParseCertificateRequest",
+                                              "tls13ParseCertificate", "tls13ParseCertificateVerify", "tls13ParseFinished", "tls13ParseNewSessionTicket"],
+                  "matrixssl/hsNegotiateVersion.c": ["tlsServerNegotiateVersion"]},
+         units=["core/src/psbuf.c", "matrixssl/hsNegotiateVersion.c"],
+         functions=["tls13ParseHandshakeMessage"], sources=["matrixssl/tls13Decode.c"],
+         assumptions=["hrr_early_data: see hs_msg13 (C06): arbitrary session state, per-message parsers as stubs; tls13ParseServerHello may report a HelloRetryRequest"],
+         unwind=20,
+         cases=[dict(name="any", defs={"VF_VER": "(v_tls_1_3|v_tls_negotiated)"})]),
     dict(name="dtls_finished_epoch", src="dtls_finished_epoch.c", checks=[],
          units=["matrixssl/dtls.c", "matrixssl/hsNegotiateVersion.c"],
          functions=["processFinished", "incrTwoByte", "zeroSixByte"], sources=["matrixssl/sslEncode.c", "matrixssl/dtls.c"],
